@@ -274,7 +274,12 @@ class C17(VmodCheck):
             "(createEnv), temporaries, followed by clone / second program in the clone / purge / free in random order: "
             "constructor and method events with arguments exact and in order; each destroy at most once, not before "
             "the model's earliest release point, not after the release of the last context the object was held in; "
-            "exactly once at quiescence; no event on a dead or foreign object; ASan on the object storage. "
+            "exactly once at quiescence; no event on a dead or foreign object; ASan on the object storage; "
+            "(3) evaluated directly on the two verification modules' event log (no model): method calls compiled for one "
+            "module whose receiver is, at run time, an object of the other module (variable retyped by a dead branch, copy, "
+            "table element, function local, loop with handler) x {id, self, spawn, peer}: no method or destructor event on a "
+            "foreign object, every object destroyed once; one object referenced by 65535..70000 table elements, shrunk, "
+            "copied, replaced: 7 method calls reach it, it is destroyed once, after its last use. "
             "distinct = case text.")
     trusted_base = VmodCheck.trusted_base + ["harness/vmod (event log of the verification module)",
                                              "vlib/props/c17.py render(): BLOC text of each model instruction"]
@@ -336,6 +341,37 @@ class C17(VmodCheck):
         for _ in range(500 if quick else 6000):
             n += 1
             cases.append(self.obj_case("o%d" % n, g))
+        # receiver of another module than the one the method call was compiled for (the parser's idea of the variable's
+        # type comes from a branch that never runs): decided on the module's own event log — no method may reach an
+        # object of the other module, every object is still destroyed exactly once
+        n_recv = 0
+        for m1, m2 in (("vmod", "vmod2"), ("vmod2", "vmod")):
+            for meth in ("id()", "self()", "spawn(5)", "peer(A)"):
+                for shape in ("var", "copy", "table", "func", "loop"):
+                    pre = "import vmod;\nimport vmod2;\nA = %s(1);\n" % m1
+                    if shape == "var":
+                        body = "if false then A = %s(2); end if;\nNN = A.%s;\n" % (m2, meth)
+                    elif shape == "copy":
+                        body = "B = %s(2);\nif false then B = A; else A = B; end if;\nB = %s(3);\nC = A;\nif false then C = %s(4); end if;\nNN = C.%s;\n" % (m2, m1, m1, meth.replace("A", "C"))
+                    elif shape == "table":
+                        body = "T = tab(2, A);\nif false then T = tab(1, %s(2)); end if;\nNN = T.at(1).%s;\n" % (m2, meth)
+                    elif shape == "func":
+                        body = ("function g9() return integer is begin X = %s(7); if false then X = %s(8); end if; Y = X.%s; return 1; end;\nNN = g9();\nNN = g9();\n"
+                                % (m1, m2, meth.replace("A", "X")))
+                    else:
+                        body = "for K in 1 to 2 loop begin if false then A = %s(2); end if; NN = A.%s; exception when others then NN = 0; end; end loop;\n" % (m2, meth)
+                    n_recv += 1
+                    text = pre + body
+                    cases.append(Case("r%d" % n_recv, "", "plugreset|new 0 t|prog 0 %s|vlog|free 0|vlog|live" % hx(text),
+                                      {"family": "recv", "src": text, "nomodel": True}))
+        # very many simultaneous references to one object (table of 65540 / 70000 copies; 2^16 is where a narrow counter would wrap)
+        for nrefs in (65535, 65536, 65537, 65540, 70000):
+            text = ("import vmod;\nA = vmod(7);\nT = tab(%d, A);\nA = vmod(8);\nfor K in 1 to 6 loop T.delete(0); NN = T.at(0).id(); end loop;\n"
+                    "U = T;\nT = tab(1, A);\nNN = U.at(5).id();\nU = tab(1, A);\nNN = A.id();\n" % nrefs)
+            n_recv += 1
+            cases.append(Case("r%d" % n_recv, "", "plugreset|new 0 t|prog 0 %s|vlog|free 0|vlog|live" % hx(text),
+                              {"family": "recv", "src": text, "nomodel": True, "manyrefs": True}))
+        self.stats["receiver_cases"] = n_recv
         for cid, case in self.fixed_obj_cases():
             cases.append(case)
         self.stats["cases"] = len(cases)
@@ -440,7 +476,45 @@ class C17(VmodCheck):
         fam = c.meta["family"]
         if fam.startswith("hops"):
             return self.judge_hops(c, iraw, m, stderr)
+        if fam == "recv":
+            return self.judge_recv(c, iraw, stderr)
         return self.judge_obj(c, iraw, m, stderr)
+
+    def judge_recv(self, c, iraw, stderr):
+        self.distinct.add(c.impl_line)
+        if iraw.startswith("crash ") or iraw.endswith("diverges"):
+            self.tally(c, iraw, {})
+            return self.record_violation("crash in an object-lifetime program (%s)" % ("many references to one object" if c.meta.get("manyrefs") else "receiver of another module"), c, iraw, {}, stderr)
+        parts = iraw.split("|")
+        logs = [p for p in parts if p.startswith("log=")]
+        lines = [l for lg in logs for l in lg[4:].split("~") if l]
+        self.tally(c, parts[2].split(" ")[0] if len(parts) > 2 else "?", {})
+        for l in lines:
+            if l.startswith(("M!", "D!")):
+                return self.record_violation("a method / destructor was executed on a dead or foreign object: %s (%s)" % (l, c.meta["src"].replace("\n", " ")[:200]),
+                                             c, "~".join(lines)[:800], {"spec": "no M!/D! event"}, stderr)
+        made = [l.split(" ")[1] for l in lines if l.startswith("C ")]
+        gone = [l.split(" ")[1] for l in lines if l.startswith("D ")]
+        dead = set()
+        for l in lines:
+            w = l.split(" ")
+            if w[0] == "D":
+                dead.add(w[1])
+            elif w[0] == "M" and w[1] in dead:
+                return self.record_violation("method executed on %s after it was destroyed" % w[1], c, "~".join(lines)[:800], {}, stderr)
+        if c.meta.get("manyrefs"):
+            # the shared object (#1) must outlive every use: its destruction comes after the last method call on it
+            last_m = max([i for i, l in enumerate(lines) if l.startswith("M ") and l.split(" ")[1].endswith("#1")] or [-1])
+            d1 = [i for i, l in enumerate(lines) if l.startswith("D ") and l.split(" ")[1].endswith("#1")]
+            nm = len([l for l in lines if l.startswith("M ") and l.split(" ")[1].endswith("#1")])
+            if nm != 7 or not d1 or d1[0] < last_m:
+                return self.record_violation("object #1 (held by tens of thousands of table elements): %d method calls (7 expected), destroyed at event %s, last use at %d"
+                                             % (nm, d1, last_m), c, "~".join(lines)[:800], {}, stderr)
+        if sorted(made) != sorted(gone) or len(set(gone)) != len(gone):
+            return self.record_violation("objects created %s, destroyed %s" % (made, gone), c, "~".join(lines)[:800], {"spec": "each object destroyed exactly once"}, stderr)
+        live = [p for p in parts if p.startswith("live=")]
+        if live and int(live[-1][5:].split(",")[0]) != 0:
+            return self.record_violation("module reports live objects at quiescence", c, "~".join(lines)[:800], {}, stderr)
 
     def judge_hops(self, c, iraw, m, stderr):
         mout = m.get("model", "")
